@@ -1,5 +1,6 @@
 import DarkluaModel.Shared.Visitor
 import DarkluaModel.Shared.Run
+import DarkluaModel.Shared.VisitorSound.Heap.Refs
 /-!
 # `RemoveFunctionCallProcessor` (`src/rules/remove_call_match.rs`) and its helpers
 
@@ -456,6 +457,12 @@ def wrapLocal : Stmt → Stmt
   | .localAssign k ns vs => .doBlock (.mk [.localAssign k ns vs] none)
   | other => other
 
+/-- instrumentation (F36): a kept non-call argument becomes `local _ = …` inside the `do` block and a LATER
+kept argument mentions the variable `_` — it would read the new local (conservative: any later kept argument) -/
+def underscoreLeak : List Expr → Bool
+  | [] => false
+  | e :: rest => (!isCall (getInner e) && rest.any fun r => r.refs (.ref "_")) || underscoreLeak rest
+
 /-- one round of the loop of `process_statement`: the matched call statement becomes the statement
 built from its kept arguments; a lone `local _ = …` is wrapped in `do … end` (F31 fix) -/
 def processStatementOnce (M : Matcher) (preserve : Bool) : Stmt → St → Stmt × St
@@ -463,7 +470,8 @@ def processStatementOnce (M : Matcher) (preserve : Bool) : Stmt → St → Stmt 
     if M.matchesPrefix (isUsed st.scopes) f then
       if preserve then
         (wrapLocal (expressionsAsStatement (preserveArgumentsSideEffects kind args)),
-          { st with unmodelled := st.unmodelled || argsUnmodelled kind args })
+          { st with unmodelled := st.unmodelled || argsUnmodelled kind args }.flagIf
+            (underscoreLeak (preserveArgumentsSideEffects kind args)) "underscore-in-args")
       else (.doBlock (.mk [] none), st)
     else (.callStmt (.call f none kind args), st)
   | s, st => (s, st)
@@ -515,7 +523,8 @@ def processExpression (M : Matcher) (preserve : Bool) (e : Expr) (st : St) : Exp
 The flags are the local hypotheses of the `_partial` theorems (`C17/Thm.lean`) evaluated at every
 node the REAL traversal reaches (including nodes produced by earlier rewrites). They never
 influence the tree. Left after the fixes of F19 F30 F31 F32: `zero-arg-expr` (F18, set in
-`processExpressionOnce`), `multi-position` (F33), `global-write` (outside the quantifier). -/
+`processExpressionOnce`), `underscore-in-args` (F36, set in `processStatementOnce`), `multi-position` (F33),
+`global-write` (outside the quantifier). -/
 
 /-- a matched call (no method) -/
 def isMatchedCall (M : Matcher) (sc : Scopes) : Expr → Bool
